@@ -51,6 +51,30 @@ CLAIMED = {
         note="Trusted: as C01.",
         technique="TLA+ spec (Eval DynTarget vs EvalCode DynLookup) model-checked with TLC; behaviours replayed on the real code",
         design="6/C06"),
+    "C08": dict(
+        text="TLC checks that the code's classification functions (jsonType, jsonNumber, the string-keyword kind guard) are "
+             "functions of the denoted JSON value for every Go representation tag (Reps.tla), and computes the L0 verdict of a "
+             "schema pool touching every keyword group on the denotation; the harness builds each representation with reflect "
+             "(numeric kinds, json.Number, []any/[]T/[n]T, map[string]any/map[string]T/map[K]any, pointers, *any, defined types) "
+             "and compares the real verdict with L0 and with the canonical decoding's verdict.",
+        note="Trusted: TLC, harness construction of represented values, encoding/json. nil slices/maps and structs are outside the domain.",
+        technique="TLA+ spec of representations (Reps.tla) model-checked with TLC; behaviours replayed on the real code",
+        design="6/C08"),
+    "C11": dict(
+        text="L0 SameJSON = equality of denotations (an equivalence by construction); L1 EqualCode = equalValue's kind-directed "
+             "case analysis; TLC checks EqualCode = SameJSON on all pairs of a pool of represented values, in both argument orders; "
+             "every row is replayed on the real Equal, with an independent canonical-form witness guarding the prediction.",
+        note="Trusted: TLC, pools.py number tables, harness construction of represented values.",
+        technique="TLA+ spec (Reps.tla EqualCode vs SameJSON) model-checked with TLC; behaviours replayed on the real code",
+        design="6/C11"),
+    "C12": dict(
+        text="TLC proves on bounded arrays that for EVERY hash assignment satisfying the law Equal => same hash the bucket scan "
+             "of uniqueItems returns the pairwise verdict (seed independence as a theorem of the model); the law - the theorem's "
+             "only assumption - is bound to the real hashValue through the verif hook for all equal pairs under 4 seeds; "
+             "uniqueItems/enum/const verdicts on mixed-representation arrays are replayed 8 times each (fresh seed per call).",
+        note="Trusted: TLC, hook VerifHash (thin wrapper around hashValue), harness construction of represented values.",
+        technique="TLA+ spec (hash-bucket scan theorem) model-checked with TLC; hash law checked on the real code via hook; behaviours replayed",
+        design="6/C12"),
 }
 
 NOT_YET = "check not built yet in this round (work in progress; see DESIGN.md section 11)"
